@@ -27,11 +27,17 @@ def get_lindblad_operators(
                 "hyperfine_dephasing_rate is supported only in the digital basis"
             )
 
-        c = math.sqrt(noise_model.dephasing_rate / 2)
         dephasing = torch.zeros(dim, dim, dtype=dtype)
 
-        dephasing[0, 0] = c
-        dephasing[1, 1] = -c
+        if dim == 2:
+            c = math.sqrt(noise_model.dephasing_rate / 2)
+            dephasing[0, 0] = c
+            dephasing[1, 1] = -c
+        else:
+            # With a leakage level, c * sigma_z on the first two levels is no longer
+            # the same channel as pulser's sqrt(2 * rate) |1><1|: the coherences
+            # with the leakage level would decay differently.
+            dephasing[1, 1] = math.sqrt(2 * noise_model.dephasing_rate)
 
         return [dephasing]
 
